@@ -120,6 +120,9 @@ def run(ctx):
         k = per if name != "simus" else ctx.n(10, 60)
         for _ in range(k):
             cases.append(M.method_case(ctx.rng, name, tier_big=(ctx.tier == "thorough")))
+        if name not in ("simus", "electre2"):
+            for _ in range(ctx.n(2, 6)):
+                cases.append(M.ladder_case(ctx.rng, name))
     outs = I.pmap(M.evaluate, cases)
     calls, idxs = [], []
     for k, (c, o) in enumerate(zip(cases, outs)):
@@ -139,6 +142,10 @@ def run(ctx):
             score, desc = score_of(c, o)
             if any(s != s or abs(s) == float("inf") for s in score):
                 ctx.count("nonfinite_score")
+                continue
+            if len(score) >= 60 and not M.short_numbers(score):
+                # hundreds of long rationals: the pairwise oracle above decides these, the model is not asked
+                ctx.count("huge_case_decided_by_pairwise_oracle_only")
                 continue
             calls.append(("rank", (desc, score)))
         idxs.append(k)
